@@ -16,14 +16,6 @@ const char *const AN[] = {"pubkey33", "pubkey65", "xonly", "ecdsa64", "ecdsa_der
 enum DiskFault { D_NONE, D_BITROT, D_TORN, D_SHORT, D_EXTEND, D_STALE, D_MISDIRECT, D_ZERO, D_FF, D_HDRBIT, D_NF };
 const char *const DN[] = {"intact", "bitrot", "torn", "short", "extend", "stale", "misdirected", "zero_block", "ff_block", "header_bit"};
 
-// exact-size heap copy without padding: an over-read by the library hits an ASan red zone
-struct Exact {
-    uint8_t *p; size_t n;
-    explicit Exact(const Bytes &b) : n(b.size()) { p = (uint8_t *)malloc(n ? n : 1); if (n) memcpy(p, b.data(), n); }
-    ~Exact() { free(p); }
-    Exact(const Exact &) = delete; Exact &operator=(const Exact &) = delete;
-};
-
 Bytes artifact(const Fixtures &f, int t) {
     switch (t) {
         case A_PUBKEY33: return Bytes(f.pk33[1], f.pk33[1] + 33);
